@@ -40,7 +40,13 @@ var NewReaderDict = flate.NewReaderDict
 func NewReader(r io.Reader) io.ReadCloser {
 	rr := &decompressor{}
 	rr.r = r
-	rr.rBuf = bufio.NewReader(r)
+	if ur, ok := r.(*bufio.Reader); ok {
+		// use the caller's buffer directly (as Reset does), whatever its size:
+		// wrapping it in a second bufio.Reader reads ahead of the stream end.
+		rr.rBuf = ur
+	} else {
+		rr.rBuf = bufio.NewReader(r)
+	}
 	return rr
 }
 
